@@ -40,7 +40,8 @@ class SetEncoder(encoder.SetEncoder):
                         '%s components for Choice at %r' % (len(names) and 'Multiple ' or 'None ', component))
 
                 return SetEncoder._componentSortKey(
-                    (component[names[0]], asn1Spec[names[0]]))
+                    (component[names[0]],
+                     asn1Spec.componentType[names[0]].asn1Object))
 
         else:
             # components are ordered by the outermost tag
